@@ -18,7 +18,7 @@ def c1(ctx):
 
 def c2(ctx):
     timing.dims_beat(ctx)
-    timing.tag_order(ctx)
+    timing.tag_order(ctx, ['beat_at'])
 
 
 CLAUSES = [
